@@ -25,4 +25,5 @@ CHECK = dict(
     assumptions=ENUMX_ASSUME + ["latency classes delta=40ms and 3*delta=120ms < 1/3 of the shortest round timeout (400ms)",
                                 "Byzantine members and latencies >= 1/3 timeout are outside the property"],
     budget_s={"quick": 100, "thorough": 1500},
+    mem_kb=14 * 1024 * 1024,
 )
